@@ -175,6 +175,32 @@ def _ite_chain(i, vals):
     return e
 
 
+def describe(v):
+    """short, deterministic description of a value for the tag of an unknown (opaque) call result"""
+    if isinstance(v, StrV):
+        return repr(v.s)
+    if isinstance(v, OpaqueV):
+        return v.tag
+    if isinstance(v, IntV):
+        e = z3.simplify(v.e)
+        return str(e.as_long()) if z3.is_int_value(e) else "<int>"
+    if isinstance(v, BoolV):
+        e = z3.simplify(v.e)
+        return "True" if z3.is_true(e) else ("False" if z3.is_false(e) else "<bool>")
+    if isinstance(v, NoneV):
+        return "None"
+    if isinstance(v, ObjV):
+        return v.path
+    if isinstance(v, BytesV):
+        n = z3.simplify(v.n)
+        if z3.is_int_value(n) and n.as_long() <= 32:
+            vals = [z3.simplify(v.at(z3.IntVal(i))) for i in range(n.as_long())]
+            if all(z3.is_int_value(x) for x in vals):
+                return repr(bytes(x.as_long() for x in vals))
+        return "<bytes>"
+    return f"<{type(v).__name__}>"
+
+
 def _select_indices(e, out=None, seen=None):
     """index arguments of every array select inside e"""
     out = [] if out is None else out
@@ -284,6 +310,7 @@ class Engine:
         self.obligations: list[Obligation] = []
         self.euclid_cache = {}
         self.raised = []  # (state, excname, node)
+        self.opaque_calls = {}
         self._ord = {}
         self._number_nodes()
 
@@ -500,7 +527,7 @@ class Engine:
             if self.model.is_method(base.path, n.attr):
                 return BoundMethod(base, n.attr)
             return self.model.attr(self, st, base.path, n.attr, n)
-        if isinstance(base, (FileV, ListV, BytesV, SeqV, SetListV)) or (isinstance(base, StrV) and n.attr == "encode"):
+        if isinstance(base, (FileV, ListV, BytesV, SeqV, SetListV)) or (isinstance(base, StrV) and n.attr in ("encode", "format")):
             return BoundMethod(base, n.attr)
         if isinstance(base, FuncRef) and base.name == "int":
             return BoundMethod(base, n.attr)
@@ -804,6 +831,24 @@ class Engine:
         b = self.ev_guarded(n.orelse, st, z3.Not(c))
         return self.merge(c, a, b, n)
 
+    def ev_NamedExpr(self, n, st):
+        v = self.ev(n.value, st)
+        self.assign(n.target, v, st, n)
+        return v
+
+    def ev_JoinedStr(self, n, st):
+        parts = []
+        for p_ in n.values:
+            if isinstance(p_, ast.Constant):
+                parts.append(str(p_.value))
+            else:
+                v = self.ev(p_.value, st)
+                if isinstance(v, StrV) and p_.format_spec is None and p_.conversion == -1:
+                    parts.append(v.s)
+                else:
+                    return OpaqueV("f" + repr("".join(parts)) + "...")
+        return StrV("".join(parts))
+
     def ev_Dict(self, n, st):
         if not n.keys:
             return OpaqueV("dict")  # a fresh empty dict: stores into it are outside what the contracts read unless the model hooks them
@@ -851,6 +896,8 @@ class Engine:
                 if key not in base.memo:
                     base.memo[key] = OpaqueV(f"{base.tag}[{idx.s!r}]")
                 return base.memo[key]
+            if isinstance(base, OpaqueV) and idx is not None:
+                return OpaqueV(f"{base.tag}[{describe(idx)}]")
             return OpaqueV("item")
         if isinstance(base, OptV) and isinstance(base.val, BytesV):
             self.may_raise("TypeError", st, z3.Not(base.is_none), n)
@@ -879,6 +926,10 @@ class Engine:
         f = self.ev(n.func, st)
         if any(isinstance(a, ast.Starred) for a in n.args) or sum(1 for k in n.keywords if k.arg is None) > 1:
             raise Unsupported(f"*args call@{n.lineno}")
+        if any(k.arg is None for k in n.keywords) and (isinstance(f, OpaqueV) or (isinstance(f, BoundMethod) and isinstance(f.recv, (OpaqueV, StrV)))):
+            kw = next(k for k in n.keywords if k.arg is None)
+            ftag = f.tag if isinstance(f, OpaqueV) else f"{describe(f.recv)}.{f.name}"
+            return OpaqueV(f"{ftag}(**{describe(self.ev(kw.value, st))})")
         if any(k.arg is None for k in n.keywords) and not (isinstance(f, BoundMethod) and isinstance(f.recv, ObjV)):
             raise Unsupported(f"**kwargs call on something that is not a contracted method@{n.lineno}")
         args = [self.ev(a, st) for a in n.args]
@@ -936,6 +987,9 @@ class Engine:
                         return NoneV()
                     raise Unsupported("append on non-name")
                 x = args[0]
+                if hasattr(self.model, "on_list_append"):
+                    self.model.on_list_append(self, st, tgt.id, x, n)
+                    return NoneV()
                 if isinstance(x, TupleV):
                     if self.on_append is None:
                         raise Unsupported("append of tuple without on_append hook")
@@ -957,9 +1011,13 @@ class Engine:
         if isinstance(f, OpaqueV) and not n.args and not n.keywords:
             if ("call0",) not in f.memo:  # a zero-argument call on an unknown value: one (memoised) unknown result
                 f.memo[("call0",)] = OpaqueV(f.tag + "()")
+                self.opaque_calls[f.tag + "()"] = f.memo[("call0",)]
             return f.memo[("call0",)]
         if isinstance(f, OpaqueV) or (isinstance(f, BoundMethod) and isinstance(f.recv, OpaqueV)):
-            return OpaqueV("call")
+            ftag = f.tag if isinstance(f, OpaqueV) else f"{f.recv.tag}.{f.name}"
+            o = OpaqueV(f"{ftag}({', '.join([describe(a_) for a_ in args] + [f'{k_}={describe(v_)}' for k_, v_ in kwargs.items()])})")
+            self.opaque_calls[o.tag] = o  # ghost registry: the unknown result of this call expression (last evaluation)
+            return o
         if getattr(self.model, "gate_mode", False):
             return self.model.unknown_call(self, st, f, args, kwargs, n)
         raise Unsupported(f"call {ast.unparse(n)[:60]}@{n.lineno}")
@@ -1153,6 +1211,8 @@ class Engine:
         elif isinstance(tgt, ast.Subscript):
             base = self.ev(tgt.value, st)
             if isinstance(base, OpaqueV) or (getattr(self.model, "gate_mode", False) and not isinstance(base, ObjV)):
+                if isinstance(base, OpaqueV) and hasattr(self.model, "on_opaque_store"):
+                    self.model.on_opaque_store(self, st, base, self.ev(tgt.slice, st), v, node)  # ghost event for fragment contracts
                 return  # store into an unknown container: no effect on anything the contracts read
             if not isinstance(base, ObjV):
                 raise Unsupported(f"subscript store on {type(base).__name__}@{node.lineno}")
